@@ -72,7 +72,7 @@ func C28(c *core.Ctx) {
 		"transaction unaffected (earlier writes commit and read back, rejected key absent), accepted writes round trip; part B: for memtable sizes 1/2/4 MiB (ValueThreshold " +
 		"raised to the batch limit so values count in full) transactions of n=1..12 entries whose accounted size sweeps every value in the last 64 bytes below the " +
 		"largest accepted size, and entry counts in the last 4 below the count limit, committed at small and at 19-digit managed timestamps: once every Set was accepted, " +
-		"Commit must not return ErrTxnTooBig; distinct = (part, mode, n, boundary class) cases")
+		"Commit must not return ErrTxnTooBig; part C: the same guarantee when the value threshold moves between the Sets and the Commit (VLogPercentile with other commits of larger values in between; in-memory database with a DropAll in between): hundreds of values that were accounted as value-log pointers when they were set; distinct = (part, mode, n, boundary class) cases")
 	work := c.WorkDir()
 	defer os.RemoveAll(work)
 	r := c.Rand("c28")
@@ -325,6 +325,90 @@ func C28(c *core.Ctx) {
 			_ = os.RemoveAll(dir)
 		}
 	}
+	// ---------------- part C: the value threshold moves between the Sets and the Commit
+	for i := 0; i < c.Pick(4, 16); i++ {
+		c28MovingThreshold(c, work, i)
+	}
 	c.Sample(map[string]any{"partA": "Set(key=65001 x 'k', value 100 bytes) on disk DB -> want reject 'key too long'", "partB": "n entries sized so the accounted size is 0..64 bytes below the largest accepted, then Commit"})
 	c.Assume("single writes larger than the batch limit of a deliberately tiny memtable are outside part A (memtable 8 MiB there); read-side banned-namespace checks use Get")
+}
+
+// c28MovingThreshold: every Set was accepted (values at or above the threshold are accounted as
+// pointers), then the threshold rises above those values before Commit; Commit must not answer
+// ErrTxnTooBig and everything must read back.
+func c28MovingThreshold(c *core.Ctx, work string, idx int) {
+	dir := filepath.Join(work, fmt.Sprintf("moving%d", idx))
+	_ = os.MkdirAll(dir, 0o755)
+	defer os.RemoveAll(dir)
+	inMem := idx%2 == 1
+	o := badger.DefaultOptions(dir).WithLogger(nil)
+	o.MemTableSize = 1 << 20
+	o.NumCompactors = 2
+	var valSize, n int
+	if inMem {
+		o.InMemory, o.Dir, o.ValueDir = true, "", ""
+		o.MemTableSize = 4 << 20
+		o.ValueThreshold = 64 << 10
+		valSize, n = 64<<10, 12 // exactly the threshold: stored in the LSM tree by the in-memory rule
+	} else {
+		o.ValueThreshold = 32
+		o.VLogPercentile = []float64{0.5, 0.9}[idx/2%2]
+		valSize, n = 1000, 400+100*(idx%3)
+	}
+	db, err := badger.Open(o)
+	if err != nil {
+		c.Inconclusive("open: " + err.Error())
+		return
+	}
+	defer db.Close()
+	t0 := db.VerifValueThreshold()
+	txn := db.NewTransaction(true)
+	defer txn.Discard()
+	for i := 0; i < n; i++ {
+		if err := txn.Set([]byte(fmt.Sprintf("mv%05d", i)), gen.Expand(fmt.Sprintf("V%d.%d", idx, i), valSize)); err != nil {
+			c.Inconclusive(fmt.Sprintf("part C: Set %d of %d refused: %v", i, n, err))
+			return
+		}
+	}
+	if inMem {
+		if err := db.DropAll(); err != nil {
+			c.Inconclusive("part C: DropAll: " + err.Error())
+			return
+		}
+	} else {
+		for i := 0; i < 400 && db.VerifValueThreshold() <= int64(valSize); i++ {
+			_ = db.Update(func(t *badger.Txn) error { return t.Set([]byte(fmt.Sprintf("big%04d", i)), gen.Expand("B", 5000)) })
+		}
+	}
+	t1 := db.VerifValueThreshold()
+	c.Eval(1)
+	info := map[string]any{"in_memory": inMem, "values": n, "value_size": valSize, "threshold_at_set": t0, "threshold_at_commit": t1}
+	if t1 > t0 {
+		c.Count("partC.threshold_rose_before_commit", 1)
+		c.Distinct(fmt.Sprintf("C|inmem=%v|threshold-rose", inMem))
+	}
+	err = txn.Commit()
+	if errors.Is(err, badger.ErrTxnTooBig) {
+		c.Violation("C28|C|accepted-then-too-big", fmt.Sprintf("%d Sets of %d-byte values were all accepted (threshold %d), the threshold moved to %d, Commit returned ErrTxnTooBig", n, valSize, t0, t1), info)
+		return
+	}
+	if err != nil {
+		c.Violation("C28|C|commit-error", err.Error(), info)
+		return
+	}
+	_ = db.View(func(rt *badger.Txn) error {
+		for i := 0; i < n; i++ {
+			it, err := rt.Get([]byte(fmt.Sprintf("mv%05d", i)))
+			if err != nil {
+				c.Violation("C28|C|read-back", fmt.Sprintf("key %d: %v", i, err), info)
+				return nil
+			}
+			v, _ := it.ValueCopy(nil)
+			if string(v) != string(gen.Expand(fmt.Sprintf("V%d.%d", idx, i), valSize)) {
+				c.Violation("C28|C|read-back", fmt.Sprintf("key %d: %d bytes read, %d written", i, len(v), valSize), info)
+				return nil
+			}
+		}
+		return nil
+	})
 }
